@@ -17,6 +17,9 @@ g("RestoreIFs", bounded="stack depth <= 2 frames")
 for m in ["IF", "IFDEF", "IFNDEF", "IFUSED", "IFNUSED", "ELSE", "ELSEIF", "ENDIF", "ENDC", "ENDCASE", "SWITCH", "other"]:
     GROUPS.append(G("ifs_" + m, SRC, "h_CodeIFs_" + m, enforce=[], link=LINK, stubs=STUBS, unwind=24, timeout=300,
                     functions=["CodeIFs"], note="dispatcher executed with the real statement bodies inlined"))
+GROUPS.append(G("if_CodeIFEXIST", SRC, "h_CodeIFEXIST", enforce=[], dfcc=False, drop_unused=True, link=LINK, stubs=STUBS, unwind=18, timeout=300, object_bits=12,
+                defs=["-DVERIF_IFEXIST", "-DSTRINGSIZE=16"], functions=["CodeIFEXIST"], flags=["--unsigned-overflow-check"],
+                bounded="argument text of 0..3 arbitrary characters (quote stripping is decided on the first and last character); file search is an oracle"))
 TRUSTED_BASE = ["stubs/gerr.c (WrError/ChkArgCnt count only)",
                 "ghost oracles for EvalStrIntExpressionWithFlags / IsSymbolDefined / IsSymbolUsed / FindFunction / FoundMacroByName / FSearch",
                 "strmaxcpy/as_snprintf replaced by bounded-write stubs (listing text is not part of the property)"]
